@@ -843,14 +843,23 @@ func (i *interpreter) runPath(prefix []int32) {
 		st.Reached[k]++
 	}
 	concolic := end == "unsupported" && i.wantConcolic(endReason)
-	if len(st.Samples) < 6 || (end == "complete" && i.witnessLeft > 0) || concolic {
+	// passing paths replayed natively: log-spaced over each worker's paths
+	wantWitness := false
+	if end == "complete" && i.witnessLeft > 0 {
+		i.completeSeen++
+		switch i.completeSeen {
+		case 2, 20, 200, 2000, 20000:
+			wantWitness = true
+		}
+	}
+	if len(st.Samples) < 6 || wantWitness || concolic {
 		// produce a model of this path for the evidence samples / native validation
 		if r, vals := i.checkSat(nil, i.opts.FeasTimeoutMs, true); r == "sat" {
 			vec := i.vectorFrom(vals)
 			if len(st.Samples) < 6 {
 				st.Samples = append(st.Samples, Sample{Decisions: len(i.path.decisions), End: end + optReason(endReason), Vector: fmtVector(vec), Notes: i.path.notes})
 			}
-			if end == "complete" && i.witnessLeft > 0 {
+			if wantWitness {
 				i.witnessLeft--
 				i.shared.mu.Lock()
 				i.shared.witnesses = append(i.shared.witnesses, Violation{Harness: i.harness, Kind: "witness", Vector: vec})
